@@ -144,6 +144,14 @@ def gen_C03(rng, ci, tier):
         else:
             s.add("nth", d, ln + rng.choice([0, 1]))
         out.append(s.ops)
+    # ... and with a k-mer as the receiver (Deref to a slice of K symbols): get past K must be None
+    for K in KGRID[ci.name][0]:
+        for _ in range(scale(tier, 2, 20)):
+            s = Script(ci)
+            d = s.embed(rng, rand_codes(rng, ci, K))
+            s.add("kfrom", K, 0, d)
+            s.add("kview", K + ci.per_word + 2)
+            out.append(s.ops)
     # the same accessors with the OWNED sequence as the method receiver: freshly built, copied out of a
     # window, truncated (stale symbols stay behind the end in the last word) and cleared
     for _ in range(scale(tier, 80, 1600)):
@@ -888,10 +896,11 @@ def gen_C10(rng, ci, tier):
             y = rand_codes(rng, ci, n)
         a = s.new_from_codes(rng, x)
         b = s.new_from_codes(rng, y)
-        if not is_ord:
-            s.add("eq", 2, SD(a), SD(b))
-            out.append(s.ops)
-            continue
+        # Ord for Seq exists for every codec (k-mer order only where the symbols are Ord)
+        if rng.random() < 0.3 and n:
+            # stale bits behind the end: a longer sequence cut back to x
+            extra = rand_codes(rng, ci, rng.choice([1, 2, ci.per_word]))
+            s.add("extend", a, extra); s.add("truncate", a, n)
         s.add("cmp", a, b); s.add("cmp", b, a); s.add("cmp", a, a)
         s.add("eq", 2, SD(a), SD(b))
         if is_ord and 0 < n <= ci.per_word and n in grid[0]:
@@ -991,6 +1000,8 @@ def gen_C19_conv(rng, ci, tier):
         s.add("conv", 1, d)
         s.add("display", d)
         out.append(s.ops)
+    # static arrays (the type behind dna! literals) convert too: From<&SeqArray> / From<SeqArray>
+    out += arr_scripts(rng, ci, tier, scale(tier, 40, 800))
     return out
 
 
